@@ -49,7 +49,7 @@ ASSUMPTIONS = [
 ]
 TECHNIQUE = 'Hypothesis grids + reference comparison, variant re-runs for root-cause attribution'
 BUDGET = {'quick': dict(examples=4000, shards=8, max_seconds=50),
-          'thorough': dict(examples=48000, shards=16, max_seconds=540)}
+          'thorough': dict(examples=48000, shards=16, max_seconds=1800)}
 
 DELIMS = [',', ';', '\t', '|', ':', '^', '~', '\xa7']
 QUOTES = ['"', "'", '`', '$', '\xab']
